@@ -22,7 +22,8 @@ func EnumSmall(maxN int, visit func(*Case)) {
 	for _, ch := range []int{1, 60, 0} {
 		cfgs = append(cfgs, cfg{"durable", 0, ch})
 	}
-	for _, cf := range cfgs {
+	fills := []string{"", "bus", "mixed"}
+	for ci, cf := range cfgs {
 		faults := map[string]bool{}
 		for _, f := range faultsFor(cf.name) {
 			faults[f] = true
@@ -36,8 +37,14 @@ func EnumSmall(maxN int, visit func(*Case)) {
 		for n := 0; n <= maxN; n++ {
 			for start := 0; start <= n; start++ {
 				for _, f := range fl {
+					fill := fills[(ci+n+start)%len(fills)]
+					if f == "badrow" {
+						fill = ""
+					}
 					if f == "none" || f == "cancel-before" {
-						visit(&Case{Config: cf.name, Batch: cf.batch, Chunk: cf.chunk, N: n, Start: start, Fault: f})
+						for _, fl2 := range fills {
+							visit(&Case{Config: cf.name, Batch: cf.batch, Chunk: cf.chunk, N: n, Start: start, Fault: f, Fill: fl2})
+						}
 						continue
 					}
 					maxK := n - start + 2
@@ -45,7 +52,7 @@ func EnumSmall(maxN int, visit func(*Case)) {
 						maxK = n + 1
 					}
 					for k := 1; k <= maxK; k++ {
-						visit(&Case{Config: cf.name, Batch: cf.batch, Chunk: cf.chunk, N: n, Start: start, Fault: f, K: k})
+						visit(&Case{Config: cf.name, Batch: cf.batch, Chunk: cf.chunk, N: n, Start: start, Fault: f, K: k, Fill: fill})
 					}
 				}
 			}
